@@ -19,6 +19,12 @@ struct cds_lfht_node **lf_canon_addr(struct cds_lfht_node **addr);
  * the write target is canonicalised (a store through a loop-havoc'd pointer would expand over every object) */
 #define VERIF_CMPXCHG_OVERRIDE
 unsigned long G_cas_count;
+#ifdef LF_CAS_FAIL_ONCE
+unsigned long G_cas_fail_budget, G_cas_failed;
+#define LF_CAS_MAY_FAIL() (G_cas_fail_budget && nondet_bool() ? (G_cas_fail_budget--, G_cas_failed++, 1) : 0)
+#else
+#define LF_CAS_MAY_FAIL() 0
+#endif
 void lf_cas_event(void *addr, void *oldv, void *newv);
 #include <verif/atomics_seq.h>
 #define uatomic_cmpxchg_mo(addr, old, _new, mos, mof)							\
@@ -29,10 +35,17 @@ void lf_cas_event(void *addr, void *oldv, void *newv);
 		if (LF_IS_NODEPTR(_va)) {								\
 			struct cds_lfht_node **_ca = lf_canon_addr((struct cds_lfht_node **) _va);	\
 			struct cds_lfht_node *_cur = lf_load_next(_ca);					\
+			if (LF_CAS_MAY_FAIL()) {							\
+				/* transient interference: another thread changed the word and changed it back (e.g. inserted a node	\
+				 * in front and removed it again) between the load and this compare-and-swap: it FAILS, memory is	\
+				 * as before.  The caller must cope (retry / help), never assume the update happened. */		\
+				_vold = (__typeof__(*_va)) ((unsigned long) _vold ^ 8UL);		\
+			} else {									\
 			VERIF_ASSERT(_cur == (struct cds_lfht_node *) (unsigned long) _vold, "SEQ: a compare-and-swap on a quiescent table finds the expected value (no retry)");	\
 			__CPROVER_assume(_cur == (struct cds_lfht_node *) (unsigned long) _vold); /*A:harness-precondition*/	\
 			lf_cas_event((void *) _ca, (void *) (unsigned long) _vold, (void *) (unsigned long) _vnew);		\
 			*_ca = (struct cds_lfht_node *) (unsigned long) _vnew;				\
+			}										\
 		} else {										\
 			if (*_va == _vold) *_va = _vnew; else _vold = *_va;				\
 		}											\
